@@ -37,6 +37,10 @@ for d in sorted(glob.glob(os.path.join(V, "seeded", "*"))):
             caught.append(k.split()[0] + (" (broken obligation/correspondence, no failing input)" if "no-failing-input-found" in v else " (concrete replay)"))
         elif "MISSED" in v:
             caught.append(k + ": missed")
+        elif "rc=0" in v:
+            caught.append(k.split()[0] + ": not detected")
+    if m.get("superseded"):
+        caught.append("SUPERSEDED: no observable effect at HEAD (see meta.json)")
     print("| %s | %s | %s | %s |" % (os.path.basename(d), m.get("breaks_property"), (m.get("needs_to_manifest") or "").replace("\n", " ").replace("|", "/")[:160], "; ".join(caught) or "see meta.json"))
 print("\n### 0.6 Defects found in edutko/what-is\n")
 print("| id | prop. | status | commit | what failed |")
